@@ -14,16 +14,17 @@ MANIFEST = {
     "engine": "progx",
     "technique": "exhaustive enumeration of the programs of the selection grammar to a nesting depth, each run "
                  "against an independent recursive-descent reference interpreter",
-    "text": "Depth 1: every condition of the value tables in every spelling (29 bool/str/num keyword aliases x "
-            "{== eq != ne < lt <= le > gt >= ge, implicit equality, =~} x bare/'single'/\"double\"/int/float literals, "
-            "reversed comparisons, ranges, implicit lists; ~950 strings). Depth 2: every tree leaf | not leaf | leaf conn "
-            "leaf over 21 representative leaves (one per syntactic class and operator spelling) x {and,&&,or,||} x {not,!}, "
-            "rendered flat / minimally / fully parenthesised / every leaf parenthesised (~6.5k). Depth 3: every tree of depth "
-            "<= 3 over 3 leaves (quick; 5 leaves thorough) in all connective spellings, rendered flat (re-associated by "
-            "precedence), minimal and full (~18k quick, ~120k thorough). Plus parenthesis nesting 1..5, whitespace variants, "
-            "~110 malformed strings. Topology: 42 atoms, two protein chains/segments, water, ions, repeated names and residue "
-            "numbers. Oracles: select(e) == reference and strictly increasing; all spelling/parenthesisation variants of one "
-            "abstract expression agree; eval(select_expression(e)) == select(e); malformed strings raise. Right level: the "
+    "text": "Depth 1: every condition of the value tables in every spelling (32 keyword aliases x {== eq != ne < lt <= le > gt "
+            ">= ge, implicit equality, =~} x bare/'single'/\"double\"/int/float literals, reversed comparisons, ranges, implicit "
+            "lists; 825 strings for 145 abstract conditions). Depth 2: every tree leaf | not leaf | leaf conn leaf over 21 "
+            "representative leaves (one per syntactic class and per operator spelling) x {and,&&,or,||} x {not,!}, rendered flat / "
+            "minimally / fully parenthesised / every leaf parenthesised (1827 trees, ~3.6k strings). Depth 3, quick: the "
+            "three-leaf slice (a c1 b) c2 c | a c1 (b c2 c) over 3 leaves in all 16 connective spellings (864 trees, ~1.3k "
+            "strings); thorough: every tree of depth <= 3 over 4 leaves plus the slice over 5 leaves (25k trees, ~58k strings); "
+            "each rendered flat (re-associated by precedence), minimal and full. Plus parenthesis nesting 1..5, 25 whitespace "
+            "variants, 103 malformed strings. Topology: 42 atoms, two protein chains/segments, water, ions, repeated names and "
+            "residue numbers. Oracles: select(e) == reference and strictly increasing; all spelling/parenthesisation variants of "
+            "one abstract expression agree; eval(select_expression(e)) == select(e); malformed strings raise. Right level: the "
             "property quantifies over programs of a compositional language; mis-parses appear only in particular operator "
             "combinations, which enumeration of all combinations to a depth reaches and hand-written cases do not.",
     "note": "Trusted base: the hand-written atom table and reference parser (self-checked: direct tree evaluation == "
@@ -34,7 +35,8 @@ MANIFEST = {
             "compared with a literal, missing whitespace, `not(x)`, negative numbers, True/None) are executed and recorded, "
             "not judged. segment_id/segname are not in the documentation table but are included with the obvious meaning. "
             "Each evaluation runs in a fresh thread so that the Python recursion depth available to the parser is the same "
-            "as in a top-level script.",
+            "as in a top-level script. For depth >= 2 programs select() and select_expression() share one parse result "
+            "(the parse costs ~0.1 s CPU); depth-1 and all other strings are parsed by each method separately.",
     "ref": "DESIGN.md §3 C12, §2.6",
 }
 
